@@ -44,7 +44,11 @@ def _shapes(h):
     def power3(x, a, b, c):
         return a + b * x ** c
 
-    return {"linear": linear, "exp3": exp3, "power3": power3}
+    def const(x, a, b):
+        # a dependence function may ignore the conditioning value (and then returns a scalar for a vector given)
+        return a + 0 * b
+
+    return {"linear": linear, "exp3": exp3, "power3": power3, "const": const}
 
 
 def _dep(h, shape, pname, lo, hi):
@@ -54,7 +58,7 @@ def _dep(h, shape, pname, lo, hi):
     a = h.real(f"{pname}_a", lo, hi)
     b = h.real(f"{pname}_b", 0.05, 0.5)
     coef = {"a": a, "b": b}
-    if shape != "linear":
+    if shape not in ("linear", "const"):
         coef["c"] = h.real(f"{pname}_c", 0.2, 0.9) if shape == "power3" else h.real(f"{pname}_c", -0.9, -0.1)
     d = DF(f)
     d.parameters = dict(coef)
@@ -105,7 +109,7 @@ def h_conditional(h):
         k = 2
         got = cond.draw_sample(k, given, random_state=h.generator(7))
         th = theta_at(given)
-        size = k if scalar_given or not dep_names else (k, n)
+        size = k if scalar_given or not dep_names or h.cfg["shape"] == "const" else (k, n)
         ref = fam.ref(th)
         exp = getattr(h.K, fam.scipy).rvs(*ref, size=size, random_state=h.generator(7))
         h.check(np.shape(got) == np.shape(exp), "sample-shape", f"{np.shape(got)} vs {np.shape(exp)}")
@@ -186,8 +190,10 @@ def obligations(tier):
                 continue  # the family rejects partial explicit parameters by design (see C05)
             for method in ["pdf", "cdf", "icdf", "draw_sample"]:
                 for gk in givens:
-                    for shape in (shapes if dep else ["linear"]):
-                        if shape != "linear" and (method == "draw_sample" or gk == "vec3"):
+                    for shape in ((shapes + ["const"]) if dep else ["linear"]):
+                        if shape not in ("linear", "const") and (method == "draw_sample" or gk == "vec3"):
+                            continue
+                        if shape == "const" and tier == "quick" and gk not in ("vec2", "intvec"):
                             continue
                         yield ("conditional", h_conditional,
                                {"family": fname, "dependent": "+".join(dep), "method": method, "given": gk,
